@@ -6,32 +6,38 @@ sys.path.insert(0, os.path.join(V.VERIF, "gen"))
 import modgen
 
 def gen_vops(rng, maxvoc, vchans, ntracks, nsmp, virtual, n):
+    # Mostly inside the hypothesis of voices_inv_preserved (op_okb, decided by the extracted model, not here); a small share of
+    # ops is deliberately outside it (setpatch on a background channel, new-note action without virtual channels, resetvoice
+    # of a voice that is not in use): the model flags them ok=0 and the sequence is cut there, because the theorem - and the
+    # library's own callers - exclude them and the real code may write outside its tables.
     ops = []
     for _ in range(n):
         r = rng.random()
-        # setpatch/queuepatch are only ever called with a track channel (read_event.c) - or, here, an index the range check refuses
         chn = rng.randrange(0, ntracks) if rng.random() < 0.85 else rng.choice([-1, vchans, vchans + 3, 100000, -2147483648, 2147483647])
+        if rng.random() < 0.01 and vchans > ntracks:
+            chn = rng.randrange(ntracks, vchans)
         anychn = rng.randrange(0, max(1, vchans)) if rng.random() < 0.8 else rng.choice([-1, vchans, 100000])
         if r < 0.5:
             ins = rng.choice([-1, 0, 0, 1, 2])
             smp = rng.choice([-1] + list(range(nsmp))) if nsmp else -1
             key = rng.choice([60, 61])
-            if virtual:
+            if virtual or rng.random() < 0.01:
                 nna, dct, dca = rng.choice([0, 1, 1, 2, 3]), rng.choice([0, 0, 1, 2, 3]), rng.choice([0, 1, 2, 3])
             else:
-                nna = dct = dca = 0     # hypothesis of the invariant: no new-note action without virtual channels
+                nna, dct, dca = 0, rng.choice([0, 0, 1, 2, 3]), rng.choice([0, 1, 2, 3])
             ops.append(("P", chn, ins, smp, key, nna, dct, dca))
         elif r < 0.62:
             ops.append(("L", anychn, rng.choice([0, 0, 16, 64])))
         elif r < 0.72:
             ops.append(("C", anychn))
         elif r < 0.8:
-            ops.append(("V", rng.choice([-1, maxvoc, maxvoc + 7])) if rng.random() < 0.3 else ("VU", rng.randrange(0, 64)))
+            q = rng.random()
+            ops.append(("V", rng.choice([-1, maxvoc, maxvoc + 7])) if q < 0.3 else ("V", rng.randrange(0, max(1, maxvoc))) if q < 0.33 else ("VU", rng.randrange(0, 64)))
         elif r < 0.86:
             ops.append(("Q", chn, rng.choice([-1, 0, 1]), rng.choice([-1] + list(range(nsmp))) if nsmp else -1))
         elif r < 0.93 and virtual:
             ops.append(("T", rng.randrange(0, ntracks), rng.choice([0, 0, 2, 3])))
-        elif r < 0.97 and virtual:
+        elif r < 0.97 and (virtual or rng.random() < 0.05):
             ops.append(("N", anychn, rng.choice([0, 1, 2, 3])))
         else:
             ops.append(("R",))
@@ -56,7 +62,9 @@ def main():
     vmods = [(m, n) for m, n in vmods if os.path.exists(os.path.join(data, m))]
     nseq = 12 if tier == "quick" else 200
     nd = 0
+    nouthyp = 0
     ophist = {}
+    outhist = {}
     if replay and json.load(open(replay)).get("engine") == "voices":
         rp = json.load(open(replay))
         plan = [(rp["module"], rp["numvoc"], rp["muted"], [tuple(o) for o in rp["ops"]])]
@@ -90,15 +98,27 @@ def main():
                     res_ops.append(ops[oi]); mo.append(l); oi += 1
             ops = res_ops
             opl = "".join(" ".join(str(x) for x in o) + "\n" for o in ops)
-            # the model predicts an out-of-bounds access (OOB) or a broken invariant?  cut the sequence there
-            cut = next((i for i, l in enumerate(mo[1:]) if l == "OOB" or l.endswith("| 0")), None)
+            # premises of voices_inv_preserved, as the extracted model evaluates them: the sequence is used up to the first op that
+            # does not meet op_okb (not an alarm: outside the theorem and outside what the callers do).  Inside the premises the
+            # model must neither leave the tables (OOB) nor break invb/modeb - that would contradict the theorem.
+            def flags(l):
+                if l.startswith("OOB"):
+                    return (0, 0, int(l.split()[1]))
+                f = l.rsplit("|", 1)[1].split()
+                return (int(f[0]), int(f[1]), int(f[2]))
+            out_hyp = next((i for i, l in enumerate(mo[1:]) if flags(l)[2] == 0), None)
+            if out_hyp is not None:
+                nouthyp += 1
+                outhist[ops[out_hyp][0]] = outhist.get(ops[out_hyp][0], 0) + 1
+                ops = ops[:out_hyp]; mo = mo[:out_hyp + 1]
+            cut = next((i for i, l in enumerate(mo[1:]) if flags(l)[0] == 0 or flags(l)[1] == 0), None)
             if cut is not None:
                 ck.violation({"engine": "voices", "module": m, "numvoc": numvoc, "muted": muted, "ops": ops[:cut + 1], "model": mo[cut + 1],
-                              "broken": "theorem-side: the voice-table invariant (or an index bound) fails in the model on an op sequence that satisfies the stated hypothesis"},
+                              "broken": "theorem-side: voices_inv_preserved is contradicted by its own extracted model (invariant, mode clause or an index bound fails on an op sequence that meets op_okb)"},
                              key="voices-model:%s" % (ops[cut][0],))
                 ops = ops[:cut]
-                opl = "".join(" ".join(str(x) for x in o) + "\n" for o in ops)
                 mo = mo[:cut + 1]
+            opl = "".join(" ".join(str(x) for x in o) + "\n" for o in ops)
             rc = V.run([vdrv, path, str(numvoc), muted], inp=opl, env=env)
             co = rc.stdout.strip().split("\n")[1:]
             ck.count(len(ops))
@@ -118,7 +138,7 @@ def main():
                 ck.nontrivial(("voices", m, numvoc, muted, tuple(ops)))
                 if len(ck.cov["samples"]) < 2:
                     ck.sample({"engine": "voices", "module": m, "tables(maxvoc,vchans,ntracks)": [maxvoc, vchans, ntracks], "ops": ops[:6], "after_last_op": co_c[-1][:200]})
-    ck.engine_stat("voices", sequences=len(vmods) * nseq, op_hist=ophist, disagreements=nd)
+    ck.engine_stat("voices", sequences=len(vmods) * nseq, op_hist=ophist, disagreements=nd, sequences_cut_at_an_op_outside_op_okb=nouthyp, ops_outside_op_okb=outhist)
 
     # ---- (b) the property predicate and the voice invariant on every frame of real playback under random control histories
     if not replay or json.load(open(replay)).get("engine") == "frames":
